@@ -53,6 +53,44 @@ Proof.
 Qed.
 End Scan.
 
+(** ** inversion of [manage_canary_status] and [canary_evaluate] *)
+Definition canary_scan_of (rs : ers) (listed : list name) (items : list nitem) (cn : list name) : cscan :=
+  fold_left (canary_scan_node rs listed items) cn (MkCScan 0 0 0 0 false [] [] []).
+
+Lemma manage_canary_inv : forall rs ann oc now cn listed items st0 cp,
+  manage_canary_status rs ann oc now cn listed items st0 = Ok cp ->
+  let s := canary_scan_of rs listed items cn in
+  exists l conds4,
+    canary_evaluate oc (canary_unpaused ann) now st0 (canary_failed_rs (r_status rs))
+                    (fst (canary_paused ann (Some (r_status rs)))) (snd (canary_paused ann (Some (r_status rs))))
+                    (cn_check s) = Ok (l, conds4) /\
+    let do_create := negb (Nat.eqb (length (cn_create s)) 0) && negb (cl_paused l) && negb (cl_failed l) in
+    cp_creates cp = (if do_create then cn_create s else []) /\ cp_deletes cp = cn_delete s /\
+    cp_failed cp = cl_failed l /\ cp_paused cp = cl_paused l /\
+    cp_status cp = MkErsStatus (if cl_failed l then RS_CANARY_FAILED else RS_CANARY) (cn_desired s) (cn_current s)
+                               (cn_ready s) (cn_available s) (rs_ignored st0) conds4.
+Proof.
+  intros rs ann oc now cn listed items st0 cp H. unfold manage_canary_status in H.
+  destruct (canary_paused ann (Some (r_status rs))) as [paused0 reason0]. cbn [fst snd].
+  apply bind_ok' in H. destruct H as [[l conds4] [He H]]. injection H as <-.
+  exists l, conds4. split; [exact He|]. cbn. repeat split; reflexivity.
+Qed.
+
+Lemma canary_evaluate_inv : forall oc unpaused now st0 failed0 paused0 reason0 check l conds,
+  canary_evaluate oc unpaused now st0 failed0 paused0 reason0 check = Ok (l, conds) ->
+  (oc = None /\ l = MkCLoop failed0 R_EMPTY paused0 reason0 zero_time false R_EMPTY /\ conds = rs_conds st0) \/
+  (oc <> None /\ exists cfg, canary_cfg_of oc = Some cfg /\
+     canary_pod_loop cfg unpaused now (get_cond (rs_conds st0) CT_Canary) (get_cond (rs_conds st0) CT_PodRestarting)
+       (MkCLoop failed0 R_EMPTY (if unpaused && negb failed0 then false else paused0)
+                (if unpaused && negb failed0 then R_EMPTY else reason0) zero_time false R_EMPTY) check = Ok l).
+Proof.
+  intros oc unpaused now st0 failed0 paused0 reason0 check l conds H. unfold canary_evaluate in H.
+  destruct oc as [c|]; [|injection H as <- <-; left; auto].
+  right. split; [discriminate|]. destruct (canary_cfg_of (Some c)) as [cfg|]; [|discriminate].
+  exists cfg. split; [reflexivity|].
+  destruct (unpaused && negb failed0); apply bind_ok' in H; destruct H as [l' [Hl H]]; injection H as <- _; exact Hl.
+Qed.
+
 (** What the canary role creates and deletes: a subsequence of the canary node list. *)
 Theorem canary_plan_lists : forall rs ann oc now cn listed items st0 cp,
   manage_canary_status rs ann oc now cn listed items st0 = Ok cp ->
@@ -60,13 +98,11 @@ Theorem canary_plan_lists : forall rs ann oc now cn listed items st0 cp,
   cp_deletes cp = filter (deletes_here rs listed items) cn /\
   rs_desired (cp_status cp) = zlen cn.
 Proof.
-  intros rs ann oc now cn listed items st0 cp H. unfold manage_canary_status in H.
-  destruct (canary_cfg_of oc) as [cfg|]; [|discriminate].
-  destruct (canary_paused ann (Some (r_status rs))) as [paused0 reason0].
+  intros rs ann oc now cn listed items st0 cp H. apply manage_canary_inv in H. cbv zeta in H.
+  destruct H as [l [conds4 [_ [Hc [Hd [_ [_ Hs]]]]]]].
   destruct (scan_fold_lists rs listed items cn (MkCScan 0 0 0 0 false [] [] [])) as [A [B C]].
-  match type of H with context [if ?c then (false, R_EMPTY) else _] => destruct c end;
-  apply bind_ok' in H; destruct H as [l [_ H]]; inversion H; subst cp; clear H; cbn [cp_creates cp_deletes cp_status rs_desired];
-  rewrite A, B, C; cbn [cn_create cn_delete cn_desired app]; (split; [|split; [reflexivity | lia]]);
+  unfold canary_scan_of in *. rewrite Hc, Hd, Hs, A, B. cbn [rs_desired]. rewrite C. cbn [cn_create cn_delete cn_desired app].
+  split; [|split; [reflexivity | lia]].
   match goal with |- context [if ?c then _ else []] => destruct c; auto end.
 Qed.
 
